@@ -26,6 +26,12 @@ type VC struct {
 	Assumed []string // library symbols used
 	Replay  *ReplaySpec
 	Run     func() SolveResult // non-SMT discharge (bounded enumeration on the real code)
+	// staged fallback (post obligations): when the direct query is not decided, unreachable return points are
+	// established first under the clause's hypothesis and then asserted as lemmas for the final query
+	StageBase string
+	StageHyp  Term
+	StageGoal Term
+	StageCands []Term
 }
 
 type ReplaySpec struct {
@@ -272,8 +278,25 @@ func (w *World) functionVCsT(fn *ssa.Function, prop string, prove map[string]boo
 					env.err = ""
 					continue
 				}
-				vcs = append(vcs, w.mkVC(g, fmt.Sprintf("%s.post[%s]/%s", key, tagLabel(cl, prove, prop), clauseLabel(cl, cl.ord)), prop, "post", key, cl.src,
-					[]string{"(assert " + returned + ")", "(assert (not " + t.t + "))"}, w.pos(fn.Pos()), e.replaySpec()))
+				pvc := w.mkVC(g, fmt.Sprintf("%s.post[%s]/%s", key, tagLabel(cl, prove, prop), clauseLabel(cl, cl.ord)), prop, "post", key, cl.src,
+					[]string{"(assert " + returned + ")", "(assert (not " + t.t + "))"}, w.pos(fn.Pos()), e.replaySpec())
+				if cl.expr.op == "binary" && cl.expr.name == "==>" && len(e.rets) > 1 {
+					env.skNext = 0
+					saved := env.instAt
+					env.instAt = append(append([]Term{}, env.hypInst...), env.goalSk...)
+					hyp := env.tr(cl.expr.args[0])
+					env.instAt = saved
+					concl := env.trGoal(cl.expr.args[1])
+					if env.err == "" {
+						pvc.StageBase = g.script([]string{"(assert " + returned + ")"})
+						pvc.StageHyp, pvc.StageGoal = hyp.t, concl.t
+						for _, r := range e.rets {
+							pvc.StageCands = append(pvc.StageCands, r.reach)
+						}
+					}
+					env.err = ""
+				}
+				vcs = append(vcs, pvc)
 			}
 			for _, ob := range e.obls {
 				if ob.Kind == "pre" || ob.Kind == "inv" || safe {
